@@ -24,6 +24,8 @@ def host_of_result(res):
 HOSTS = ["a.com", "www.a.com", "WWW.A.Com", "m.a.com", "mobile.a.co.uk", "amp.a.com", "amp-x.a.com", "fr.a.com", "fr-FR.facebook.com", "www.fr.a.com", "fr.www.a.com",
          "xn--tlrama-bvab.fr", "télérama.fr", "a.co.uk", "fr.co.uk", "de.a.com.au", "forum-m.a.com", "a.com.", "blog.a.pvt.k12.ma.us", "localhost", "127.0.0.1", "fr.com", "us.gov",
          "en.wikipedia.org", "zz.a.com", "www2.fr-be.a.org", "xn--amp-caf-hya.fr", "XN--CAF-DMA.fr", "www.Xn--Caf-Dma.FR", "WWW.XN--AMP-CAF-HYA.FR",
+         # a '%' inside the host: the standard parser lower-cases only what stands before it (it reads the rest as an IPv6 zone)
+         "caf%c3%a9.fr", "caf%C3%A9.FR",
          # case FOLDING differs from lower-casing here (sharp s, final sigma, ligature)
          "straße.de", "www.Fußball.de", "fr.ελλάς.gr", "ﬁsh.co.uk",
          # nothing but irrelevant labels (the host empties out)
